@@ -37,12 +37,14 @@ func TestCheck(t *testing.T) {
 	cfg := mon.Load("C08")
 	rep := mon.NewReporter(cfg,
 		"exploration",
-		"random operator trees over schema streams (Pipe cap 0..4 with one writer goroutine each, array sources, Copy n<=6, MergeStreamReaders of 1..8 mixed sources incl. already merged readers, StreamReaderWithConvert with no-value/error/panicking converters, pre-read static readers; nesting depth <= 3), one goroutine per end running a PRNG script (read to EOF / read a prefix then Close / Close at once; fast, yielding or sleeping), executed under several schedules (one without any harness synchronisation for the race detector, the others with PRNG yields/sleeps at eino's own suspension points, GOMAXPROCS in {1,4,16}). A case is distinct by its full tree+script spec and non-trivial when it has a Pipe source with >=2 items, >=2 copy/merge/convert operators and >=5 items were delivered.",
+		"random operator trees over schema streams (Pipe cap 0..4 with one writer goroutine each, array sources, Copy n<=6, MergeStreamReaders of 1..8 mixed sources incl. already merged readers, StreamReaderWithConvert with no-value/error/panicking converters, pre-read static readers; nesting depth <= 3); 35% of the trees use several element types (tok struct, any, error, fmt.Stringer, *pt) with nil interface values, typed nil pointers and mixed dynamic types as chunks and type-changing converters; array sources are windows of caller-owned buffers (exact, with spare capacity, adjacent windows of one shared buffer) that are inspected after the run; 3% filter probes (filtering converter below a merge / below another converter / below a forwarded Copy child / below a merge read by another forwarder, all readers closed at once, late writer) and 3% array probes (windows, pre-read, copies each merged with further array readers). One goroutine per end running a PRNG script (read to EOF / read a prefix then Close / Close at once; fast, yielding or sleeping), executed under several schedules (one without any harness synchronisation for the race detector, the others with PRNG yields/sleeps at eino's own suspension points, GOMAXPROCS in {1,4,16}). A case is distinct by its full tree+script spec and non-trivial when it has a Pipe source with >=2 items, >=2 copy/merge/convert operators and >=5 items were delivered.",
 		[]string{
 			"each stream end is driven by exactly one goroutine and Close is called at most once per reader (documented contract)",
 			"io.EOF is never sent as an error item; converters are pure functions",
 			"panicking converters are only placed where a forwarder goroutine of a merge runs them (a panic in the caller's own Recv is the caller's business)",
 			"an error item is identified by its error; the chunk sent along with an error is not compared",
+			"a nil chunk carries no identity: nil items of one kind are interchangeable for the sequence oracle; a converter is a pure function of the visible content of its argument",
+			"the caller does not touch the slice it handed to StreamReaderFromArray while the readers are in use",
 			"schedules are sampled, not enumerated; the thread interleaving of a replayed case may differ",
 			"quiescence monitor: harness and eino start no timers other than time.Sleep",
 		},
